@@ -465,6 +465,9 @@ func (a *AnnExec) Apply(op drv.Op) (*drv.Violation, error) {
 			a.noteBodies(op.V)
 		}
 		_, v, err := x.Apply(op)
+		if op.Op == "parlabel" && x.LastPar != "" {
+			a.LastOp = "concurrent " + x.LastPar
+		}
 		if v != nil && v.Oracle == "write-ack" {
 			v = nil // refusals of label writes are C08's concern
 		}
